@@ -29,6 +29,7 @@ carries the corresponding named hypothesis (`Search.LeafOK`, one clause per kind
 (A CHARSET that x/text knows by name only used to panic; repaired in /repo, see `charset_unsupported_refused`.)
 -/
 import GluonModel.Lemmas.Search
+import GluonModel.Lemmas.SearchSched
 
 namespace Gluon.C15
 
@@ -126,6 +127,50 @@ theorem juxtaposition_order_witness :
     search false wSnap (fun _ => wData) some [.leaf (.sentOn jan5), .leaf (.seqSet [⟨2, 2⟩])] = .error .date := by
   decide
 
+/-! ## Serial and parallel evaluation -/
+
+/-- **Serial and parallel evaluation agree** — `searchPar order` is `Mailbox.Search` with the per-message calls made
+    in the order `order` by the goroutines of `parallel.DoContext` (each call writes its own slot of the result
+    array); `search` is the loop of `parallelism == 1` (gluon.WithDisableParallelism).  For EVERY schedule that hands
+    out exactly the indices of the view (`Covers`: any interleaving, any number of workers), every key tree, view and
+    message data: the same answer, or both fail (which of several errors is reported is not compared). -/
+theorem parallel_agrees_with_serial (order : List Nat) (u : Bool) (s : Snap) (data : MsgId → MsgData)
+    (dec : Bytes → Option Bytes) (keys : List Key) (hc : Covers order s.length) :
+    (searchPar order u s data dec keys).toOption = (search u s data dec keys).toOption := by
+  simp only [searchPar, search]
+  cases buildList s dec keys with
+  | error e => rfl
+  | ok op =>
+    simp only [bind, Except.bind]
+    cases hsl : searchLoop (fun seq m => applySearch (COp.needsList op) op seq m (data m.id))
+        (fun seq m => if u then m.uid else seq) 0 s with
+    | ok r => rw [searchSched_ok _ _ s order hc r hsl]
+    | error e =>
+      obtain ⟨e', he'⟩ := searchSched_error _ _ s order hc e hsl
+      rw [he']; rfl
+
+/-- the same, for an answered search: the parallel evaluation gives that very answer -/
+theorem parallel_same_answer (order : List Nat) (u : Bool) (s : Snap) (data : MsgId → MsgData)
+    (dec : Bytes → Option Bytes) (keys : List Key) (hc : Covers order s.length) {r : List Nat}
+    (h : search u s data dec keys = .ok r) : searchPar order u s data dec keys = .ok r := by
+  have := parallel_agrees_with_serial order u s data dec keys hc
+  rw [h] at this
+  cases hp : searchPar order u s data dec keys with
+  | error e => rw [hp] at this; simp [Except.toOption] at this
+  | ok r' => rw [hp] at this; simp [Except.toOption] at this; rw [this]
+
+/-- **`Covers` is needed: a schedule that stops short of the view loses the newest messages** — three messages,
+    two workers with one contiguous batch of `3 / 2 = 1` message each (schedule `[0, 1]`): `ALL` answers `1 2`,
+    and `NOT FLAGGED` is no longer the complement of `FLAGGED` within the view.  (The oracle runs views of 131, 257, …
+    messages — sizes no number of workers divides — on the server with parallel evaluation, scenario `big`.) -/
+theorem schedule_must_cover_witness :
+    let s3 : Snap := [Snap.mkMsg 1 1 [], Snap.mkMsg 2 2 [], Snap.mkMsg 3 3 ["\\flagged"]]
+    search false s3 (fun _ => wData) some [.leaf .all] = .ok [1, 2, 3] ∧
+    searchPar [0, 1] false s3 (fun _ => wData) some [.leaf .all] = .ok [1, 2] ∧
+    searchPar [2, 0, 1] false s3 (fun _ => wData) some [.leaf .all] = .ok [1, 2, 3] ∧
+    searchPar [0, 1] false s3 (fun _ => wData) some [.leaf .flagged] = .ok [] ∧
+    searchPar [0, 1] false s3 (fun _ => wData) some [.not (.leaf .flagged)] = .ok [1, 2] := by decide
+
 /-! ## UID SEARCH -/
 
 /-- **UID SEARCH returns the UIDs of the same messages** — same failures, and otherwise the answer of SEARCH
@@ -192,6 +237,61 @@ theorem since_key_partial (u : Bool) (s : Snap) (data : MsgId → MsgData) (dec 
     (hpos : u = true → UidsPos s) (hz : ZoneFree s data) :
     search u s data dec [.leaf (.since d)] = .ok (expected u s data dec [.leaf (.since d)]) :=
   single_key u s data dec _ hpos hz
+
+/-- **ON d = NOT BEFORE d ∧ BEFORE d+1** — for every view, every message data (any instant, any stored zone) and
+    every day: `ON d` answers exactly what `NOT BEFORE d BEFORE d+1` answers; a message dated exactly midnight UTC of
+    day `d` belongs to day `d`, one dated a second earlier to day `d-1`.  The oracle asks the real server both
+    commands on views whose internal dates sit on and next to midnight (`ident` lines, judge-c15-dayident). -/
+theorem on_is_day_interval (u : Bool) (s : Snap) (data : MsgId → MsgData) (dec : Bytes → Option Bytes) (d : Int)
+    (hpos : u = true → UidsPos s) :
+    search u s data dec [.leaf (.on d)] =
+      search u s data dec [.not (.leaf (.before d)), .leaf (.before (d + 1))] := by
+  rw [search_is_filter_partial u s data dec _ hpos (by
+        intro l hl; simp [Key.leavesAll, Key.leaves] at hl; subst hl; trivial),
+      search_is_filter_partial u s data dec _ hpos (by
+        intro l hl; simp [Key.leavesAll, Key.leaves] at hl; rcases hl with rfl | rfl <;> trivial)]
+  congr 1
+  simp only [expected]
+  congr 1
+  apply List.filter_congr
+  intro m _
+  simp only [satAll, sat, satLeaf, Bool.and_true]
+  rw [Bool.eq_iff_iff]
+  simp only [decide_eq_true_eq, Bool.and_eq_true, Bool.not_eq_true', decide_eq_false_iff_not]
+  omega
+
+/-- **ON d = SINCE d ∧ BEFORE d+1 (partial)** — the same with SINCE in the place of NOT BEFORE, under `ZoneFree`
+    (SINCE reads the day in the stored zone: witness `since_before_overlap_witness`). -/
+theorem on_is_since_before_partial (u : Bool) (s : Snap) (data : MsgId → MsgData) (dec : Bytes → Option Bytes) (d : Int)
+    (hpos : u = true → UidsPos s) (hz : ZoneFree s data) :
+    search u s data dec [.leaf (.on d)] =
+      search u s data dec [.leaf (.since d), .leaf (.before (d + 1))] := by
+  rw [search_is_filter_partial u s data dec _ hpos (by
+        intro l hl; simp [Key.leavesAll, Key.leaves] at hl; subst hl; trivial),
+      search_is_filter_partial u s data dec _ hpos (by
+        intro l hl; simp [Key.leavesAll, Key.leaves] at hl; rcases hl with rfl | rfl
+        · exact hz
+        · trivial)]
+  congr 1
+  simp only [expected]
+  congr 1
+  apply List.filter_congr
+  intro m _
+  simp only [satAll, sat, satLeaf, Bool.and_true]
+  rw [Bool.eq_iff_iff]
+  simp only [decide_eq_true_eq, Bool.and_eq_true]
+  omega
+
+/-- the midnight message itself: INTERNALDATE "05-Jan-2020 00:00:00 +0000" is answered by ON 5-Jan-2020, not by
+    ON 4-Jan-2020, and is not BEFORE 5-Jan-2020; one second earlier it is the other way round -/
+theorem on_midnight_witness :
+    let dated (t : Int) : MsgId → MsgData := fun _ => { wData with date := ⟨t, 0⟩ }
+    search false wSnap (dated 1578182400) some [.leaf (.on jan5)] = .ok [1] ∧
+    search false wSnap (dated 1578182400) some [.leaf (.on (jan5 - 1))] = .ok [] ∧
+    search false wSnap (dated 1578182400) some [.leaf (.before jan5)] = .ok [] ∧
+    search false wSnap (dated 1578182399) some [.leaf (.on jan5)] = .ok [] ∧
+    search false wSnap (dated 1578182399) some [.leaf (.on (jan5 - 1))] = .ok [1] ∧
+    search false wSnap (dated 1578182399) some [.leaf (.before jan5)] = .ok [1] := by decide
 
 /-- **SINCE and BEFORE overlap** — RFC 3501: SINCE d is the complement of BEFORE d whatever "the date" of a
     message is.  For INTERNALDATE "05-Jan-2020 01:00:00 +0500" both `SINCE 5-Jan-2020` and `BEFORE 5-Jan-2020`
@@ -382,5 +482,9 @@ example : search false exSnap exData some exKeys = .ok [2, 3] := by decide
 example : search true exSnap exData some exKeys = .ok [7, 9] := by decide
 example : expected false exSnap exData some exKeys = [2, 3] := by decide
 example : search false exSnap exData some [.not (.list exKeys)] = .ok [1] := by decide
+
+/-- `Covers` is satisfiable by a schedule that is not the sequential order -/
+example : Covers [2, 0, 1] exSnap.length := by intro j; simp [List.mem_cons, exSnap]; omega
+example : searchPar [2, 0, 1] false exSnap exData some exKeys = .ok [2, 3] := by decide
 
 end Gluon.C15
